@@ -1,5 +1,5 @@
 import RichModel.Lemmas.LayoutBase
-import RichModel.Props.C08
+import RichModel.Lemmas.LayoutDeps
 /-!
 The framing renderables (Padding, Panel, Align, Bar, ProgressBar, Tree) in the vocabulary of C01: no line of their
 output is wider than the available width, and the output ends its last line.  Corollaries of the C08 library.
@@ -7,7 +7,7 @@ output is wider than the available width, and the output ends its last line.  Co
 namespace RichModel.Layout
 open RichModel RichModel.Frames
 /-- rich's cell-width function (table generated from rich/_cell_widths.py) -/
-abbrev cwR : Char → Nat := C08.cw
+abbrev cwR : Char → Nat := cwD
 
 /-! ## Closed streams -/
 
@@ -69,12 +69,12 @@ theorem padding_lines_le (v : Frames.Variant) (p : PadDims) (expand : Bool) (c :
     (hw : (p.left : Int) + p.right + 1 ≤ w) (hm0 : ∀ k : Int, 0 ≤ (c.measureAt k).maximum) :
     ∀ l ∈ splitLines (paddingConsole cwR v p expand c w), lineLength cwR l ≤ w.toNat := by
   intro l hl
-  rw [paddingConsole_lines cwR C08.cw_space C08.cw_le_two] at hl
+  rw [paddingConsole_lines cwR cwD_space cwD_le_two] at hl
   have hle : paddingWidth v p expand c w ≤ w := by unfold paddingWidth; split <;> omega
   have hfit : (p.left : Int) + p.right ≤ paddingWidth v p expand c w := by
     have := fr_fitWidth_nonneg v _ (hm0 w)
     unfold paddingWidth; split <;> omega
-  rw [paddingLines_width cwR C08.cw_space C08.cw_le_two v p expand c w hfit l hl]
+  rw [paddingLines_width cwR cwD_space cwD_le_two v p expand c w hfit l hl]
   omega
 
 theorem padding_closed (v : Frames.Variant) (p : PadDims) (expand : Bool) (c : Ch) (w : Int) :
@@ -141,7 +141,7 @@ theorem fr_textAlign_neg (cw : Char → Nat) (plain : List Char) (a : AlignM) (w
 theorem fr_textAlign_cellLen (plain : List Char) (a : AlignM) (width : Int) (ch : Char) (hch : cwR ch = 1) :
     cellLen cwR (textAlign cwR plain a width ch) = width.toNat := by
   by_cases hw : 0 ≤ width
-  · exact textAlign_cellLen cwR C08.cw_space C08.cw_le_two plain a width ch hch hw
+  · exact textAlign_cellLen cwR cwD_space cwD_le_two plain a width ch hch hw
   · rw [fr_textAlign_neg cwR plain a width ch (by omega)]
     simp only [cellLen_nil]; omega
 
@@ -192,11 +192,11 @@ theorem panel_lines_le (env : Env) (v : Frames.Variant) (o : PanelOpts) (c : Ch)
     (hm : ∀ k : Int, (c.measureAt k).maximum ≤ max k 0) :
     ∀ l ∈ splitLines out, lineLength cwR l ≤ w.toNat := by
   obtain ⟨p, box, hp, hb⟩ := fr_panel_unfold env v o c w out h
-  obtain ⟨hnn, hnar⟩ := C08.boxAt_ok _ box hb
-  obtain ⟨top, htop, hlines⟩ := panelConsole_lines cwR C08.cw_space C08.cw_le_two env v o c w p box out hp hb hnn h
+  obtain ⟨hnn, hnar⟩ := Dep.boxAt_ok _ box hb
+  obtain ⟨top, htop, hlines⟩ := panelConsole_lines cwR cwD_space cwD_le_two env v o c w p box out hp hb hnn h
   obtain ⟨n1, n2, n3, n4, n5, n6, n7, n8⟩ := hnar
   have hcw : panelChildWidth cwR v o (panelInner cwR v p c) w + 2 ≤ w :=
-    C08.panel_width_le v o (panelInner cwR v p c) w hw (fr_panelInner_sound v p c hm)
+    Dep.panel_width_le v o (panelInner cwR v p c) w hw (fr_panelInner_sound v p c hm)
   generalize panelChildWidth cwR v o (panelInner cwR v p c) w = cwid at htop hlines hcw
   intro l hl
   rw [hlines] at hl
@@ -225,7 +225,7 @@ theorem panel_lines_le (env : Env) (v : Frames.Variant) (o : PanelOpts) (c : Ch)
         rw [lineLength_append, lineLength_append]
         simp only [lineLength_seg, cellLen_cons, cellLen_nil, n1, n2, n3]
         omega
-  · rw [lineLength_append, lineLength_append, renderLines_exact cwR C08.cw_space C08.cw_le_two _ _ l0 hl0]
+  · rw [lineLength_append, lineLength_append, renderLines_exact cwR cwD_space cwD_le_two _ _ l0 hl0]
     simp only [lineLength_seg, cellLen_cons, cellLen_nil, n4, n5]
     omega
   · rw [show boxBottom box cwid = [box.bottomLeft] ++ rep cwid box.bottom ++ [box.bottomRight] from rfl,
@@ -243,7 +243,7 @@ theorem fr_alignPadCells_le (o : AlignOpts) (e : Int) : alignPadCells o e ≤ ma
 theorem align_lines_le (env : Env) (v : Frames.Variant) (o : AlignOpts) (c : Ch) (w : Int) (hw : 0 ≤ w)
     (hchild : ∀ l ∈ splitLines (c.renderAt (alignInnerWidth env v o c w)), lineLength cwR l ≤ w.toNat) :
     ∀ l ∈ splitLines (alignConsole cwR env v o c w), lineLength cwR l ≤ w.toNat := by
-  have hr := C08.align_rect env v o c w
+  have hr := Dep.align_rect env v o c w
   dsimp only at hr
   obtain ⟨h1, _, h3, _, _⟩ := hr
   intro l hl
@@ -276,7 +276,7 @@ theorem fr_barWidth_bounds (width : Option Int) (w : Int) (hw : 1 ≤ w) (hwd : 
 theorem bar_lines_le (o : BarOpts) (w : Int) (hw : 1 ≤ w) (hsd : 0 < o.size.den) (hbd : 0 < o.beginV.den) (hed : 0 < o.endV.den)
     (hwd : 0 ≤ o.width.getD 0) :
     ∀ l ∈ splitLines (barConsole (barInit o) w : List Seg), lineLength cwR l ≤ w.toNat := by
-  obtain ⟨hb0, hes, hbd'⟩ := C08.bar_init_ok o hbd
+  obtain ⟨hb0, hes, hbd'⟩ := Dep.bar_init_ok o hbd
   have hed' : 0 < (barInit o).endV.den := by
     unfold barInit; simp only; split <;> assumption
   obtain ⟨hw0, hwle⟩ := fr_barWidth_bounds o.width w hw hwd
@@ -293,7 +293,7 @@ theorem bar_lines_le (o : BarOpts) (w : Int) (hw : 1 ≤ w) (hsd : 0 < o.size.de
   intro l hl
   simp only [List.mem_singleton] at hl
   rw [hl, lineLength_seg,
-    cellLen_eq_length cwR text (fun ch hch => C08.bar_chars_narrow ch (List.mem_append.mpr (Or.inl (h3 ch hch)))), h2]
+    cellLen_eq_length cwR text (fun ch hch => Dep.bar_chars_narrow ch (List.mem_append.mpr (Or.inl (h3 ch hch)))), h2]
   show (barWidth o.width w).toNat ≤ w.toNat
   omega
 
@@ -320,7 +320,7 @@ theorem progress_lines_le (env : Env) (o : ProgressOpts) (w : Int) (hw : 1 ≤ w
   obtain ⟨hw0, hwle⟩ := fr_barWidth_bounds o.width w hw hwd
   have hnl : NlFree (progressConsole env o w : List Seg) := by
     intro s hs
-    have := C08.progress_bar_has_no_newline (σ := Nat) env o w s hs
+    have := Dep.progress_bar_has_no_newline (σ := Nat) env o w s hs
     have hc : s.text.contains '\n' = false := by simpa using this
     rw [hc]; rfl
   intro l hl
@@ -328,11 +328,11 @@ theorem progress_lines_le (env : Env) (o : ProgressOpts) (w : Int) (hw : 1 ≤ w
   cases hp : o.pulse with
   | false =>
     have : lineLength cwR (progressConsole env o w : List Seg) ≤ (barWidth o.width w).toNat :=
-      (C08.progress_bar_le_and_exact (σ := Nat) env o w hp hw0 htd hcd).1
+      (Dep.progress_bar_le_and_exact (σ := Nat) env o w hp hw0 htd hcd).1
     omega
   | true =>
     have : lineLength cwR (progressConsole env o w : List Seg) = (barWidth o.width w).toNat :=
-      C08.progress_pulse_exact_width (σ := Nat) env o w hp hw0
+      Dep.progress_pulse_exact_width (σ := Nat) env o w hp hw0
     omega
 
 /-! ## Tree -/
@@ -340,11 +340,11 @@ theorem progress_lines_le (env : Env) (o : ProgressOpts) (w : Int) (hw : 1 ≤ w
 theorem tree_lines_le (env : Env) (root : TreeN Nat) (w : Int) :
     ∀ l ∈ splitLines (treeConsole cwR env root w), lineLength cwR l ≤ w.toNat := by
   intro l hl
-  exact Nat.le_of_eq (C08.tree_rect env root w l hl)
+  exact Nat.le_of_eq (Dep.tree_rect env root w l hl)
 
 theorem tree_closed (env : Env) (root : TreeN Nat) (w : Int) : Closed (treeConsole cwR env root w) := by
   rw [treeConsole_eq_spec]
-  obtain ⟨ls, _, hout⟩ := specNode_linesOut cwR C08.cw_space C08.cw_le_two C08.guides_ok env w root [] none true root.gs (by simp)
+  obtain ⟨ls, _, hout⟩ := specNode_linesOut cwR cwD_space cwD_le_two Dep.guides_ok env w root [] none true root.gs (by simp)
   unfold specTree
   rw [hout]
   exact fr_closed_lines ls (fun l => l)
